@@ -62,27 +62,39 @@ def addressPrefix : ByteArray := "sia/address|".toUTF8
 def leafHash (H : ByteArray → ByteArray) (data : ByteArray) : ByteArray := H (byte 0 ++ data)
 def nodeHash (H : ByteArray → ByteArray) (l r : ByteArray) : ByteArray := H (byte 1 ++ l ++ r)
 
-/-- `Accumulator.AddLeaf`: the stack holds `(height, root)` of the complete subtrees,
-    smallest first; equal heights merge (`for ; acc.hasTreeAtHeight(i); i++`). -/
-def accAdd (H : ByteArray → ByteArray) : List (Nat × ByteArray) → Nat → ByteArray → List (Nat × ByteArray)
+/-- `Accumulator.AddLeaf`, over any node-combining function: the stack holds `(height, root)`
+    of the complete subtrees, smallest first; equal heights merge
+    (`for ; acc.hasTreeAtHeight(i); i++`). -/
+def accAddG {D : Type} (node : D → D → D) : List (Nat × D) → Nat → D → List (Nat × D)
   | [], i, h => [(i, h)]
   | (ht, t) :: rest, i, h =>
-    if ht = i then accAdd H rest (i + 1) (nodeHash H t h) else (i, h) :: (ht, t) :: rest
+    if ht = i then accAddG node rest (i + 1) (node t h) else (i, h) :: (ht, t) :: rest
 
 /-- `Accumulator.Root`: start from the smallest tree, fold the larger ones on the left. -/
-def accRoot (H : ByteArray → ByteArray) : List (Nat × ByteArray) → ByteArray
-  | [] => Bytes.zeros 32
-  | (_, t) :: rest => rest.foldl (fun root x => nodeHash H x.2 root) t
+def accRootG {D : Type} (node : D → D → D) (zero : D) : List (Nat × D) → D
+  | [] => zero
+  | (_, t) :: rest => rest.foldl (fun root x => node x.2 root) t
 
+def merkleRootG {D : Type} (node : D → D → D) (zero : D) (leaves : List D) : D :=
+  accRootG node zero (leaves.foldl (fun acc l => accAddG node acc 0 l) [])
+
+/-- `unlockConditionsRoot`, over an abstract hash algebra (`leaf` = BLAKE2b(0x00 ‖ ·),
+    `node` = BLAKE2b(0x01 ‖ · ‖ ·)): the Merkle root of
+    timelock | key₀ … keyₙ₋₁ | signaturesRequired -/
+def ucRootG {D : Type} (leaf : ByteArray → D) (node : D → D → D) (zero : D) (c : UnlockConditions) : D :=
+  merkleRootG node zero
+    ([leaf (le64 c.timelock)]
+      ++ c.publicKeys.map (fun k => leaf (encUnlockKey k))
+      ++ [leaf (le64 c.signaturesRequired)])
+
+def accAdd (H : ByteArray → ByteArray) := accAddG (nodeHash H)
+def accRoot (H : ByteArray → ByteArray) := accRootG (nodeHash H) (Bytes.zeros 32)
 def merkleRoot (H : ByteArray → ByteArray) (leaves : List ByteArray) : ByteArray :=
-  accRoot H (leaves.foldl (fun acc l => accAdd H acc 0 l) [])
+  merkleRootG (nodeHash H) (Bytes.zeros 32) leaves
 
 /-- `unlockConditionsRoot` -/
 def ucRoot (H : ByteArray → ByteArray) (c : UnlockConditions) : ByteArray :=
-  merkleRoot H
-    ([leafHash H (le64 c.timelock)]
-      ++ c.publicKeys.map (fun k => leafHash H (encUnlockKey k))
-      ++ [leafHash H (le64 c.signaturesRequired)])
+  ucRootG (leafHash H) (nodeHash H) (Bytes.zeros 32) c
 
 mutual
 /-- `SpendPolicy.Address` -/
@@ -134,6 +146,23 @@ def standardAddress (H : ByteArray → ByteArray) (pk : ByteArray) : ByteArray :
 def standardUnlockHash (H : ByteArray → ByteArray) (timelockHash sigsrequiredHash pk : ByteArray) : ByteArray :=
   let pubkeyHash := H (byte 0 ++ specEd25519 ++ le64 32 ++ pk)
   nodeHash H (nodeHash H timelockHash pubkeyHash) sigsrequiredHash
+
+/-- the condition of the "standard" fast path of `UnlockConditions.UnlockHash` (types.go):
+    `uc.Timelock == 0 && len(uc.PublicKeys) == 1 && uc.PublicKeys[0].Algorithm == SpecifierEd25519
+     && len(uc.PublicKeys[0].Key) == len(PublicKey{}) && uc.SignaturesRequired == 1` -/
+def fastPathCond (c : UnlockConditions) : Bool :=
+  match c.publicKeys with
+  | [k] => c.timelock == 0 && decide (k.algorithm = specEd25519) && k.key.size == 32 && c.signaturesRequired == 1
+  | _ => false
+
+/-- `UnlockConditions.UnlockHash` (types.go): the fast path, else `unlockConditionsRoot`.
+    (`SpendPolicy.Address` of a `uc` policy calls `unlockConditionsRoot` directly.) -/
+def unlockHash (H : ByteArray → ByteArray) (timelockHash sigsrequiredHash : ByteArray) (c : UnlockConditions) : ByteArray :=
+  if fastPathCond c then
+    match c.publicKeys with
+    | k :: _ => standardUnlockHash H timelockHash sigsrequiredHash k.key
+    | [] => ucRoot H c
+  else ucRoot H c
 
 /-- the executable instance: real BLAKE2b-256 -/
 def address (p : Policy) : ByteArray := addressWith blake2b256 p
